@@ -317,7 +317,7 @@ impl W {
             let text = if filtermap {
                 // a filtermap's Rust type is the Verdict of its accept / reject payloads, () for an unused side
                 let TD::Verdict(a, r) = &ret else { unreachable!() };
-                let style = c.below(4);
+                let style = c.below(6);
                 let mut ps = plist.clone();
                 let (body, rd) = match style {
                     0 => {
@@ -333,7 +333,18 @@ impl W {
                         ps.push(format!("xr: {}", r.roto()));
                         ("reject xr".to_string(), TD::Verdict(Box::new(TD::Leaf("()")), r.clone()))
                     }
-                    _ => ("if true { accept } else { reject }".to_string(), TD::Verdict(Box::new(TD::Leaf("()")), Box::new(TD::Leaf("()")))),
+                    3 => ("if true { accept } else { reject }".to_string(), TD::Verdict(Box::new(TD::Leaf("()")), Box::new(TD::Leaf("()")))),
+                    4 => {
+                        // neither side is ever used: the body only calls itself
+                        (format!("{name}({})", args.join(", ")), TD::Verdict(Box::new(TD::Leaf("()")), Box::new(TD::Leaf("()"))))
+                    }
+                    _ => {
+                        // one side used, the other only reached through the recursive call
+                        ps.push(format!("xa: {}", a.roto()));
+                        let mut call_args = args.clone();
+                        call_args.push("xa".into());
+                        (format!("if true {{ accept xa }} else {{ {name}({}) }}", call_args.join(", ")), TD::Verdict(a.clone(), Box::new(TD::Leaf("()"))))
+                    }
                 };
                 // the extra payload parameters are part of the signature
                 let mut full_params = params.clone();
@@ -342,7 +353,7 @@ impl W {
                         full_params.push((**a).clone());
                         full_params.push((**r).clone());
                     }
-                    1 => full_params.push((**a).clone()),
+                    1 | 5 => full_params.push((**a).clone()),
                     2 => full_params.push((**r).clone()),
                     _ => {}
                 }
